@@ -39,8 +39,10 @@ PROPS = {
     "C15": {"jobs": wrappers("reg", ["atomic_guarded", "guarded", "guarded_opt", "ordered_guarded",
                                      "deferred_rw"], 100000, 2500000)},
     "C03": {"jobs": [J("lr.std", "wl_lr", 200000, 6000000, mode="std")]},
+    "C04": {"jobs": [J("cow.std", "wl_cow", 150000, 4000000, mode="std")]},
     "C05": {"jobs": [J("rcu.std", "wl_rcu", 120000, 3000000, mode="std", elem=0),
                      J("rcu.std.string", "wl_rcu", 40000, 1000000, mode="std", elem=1)]},
+    "C06": {"jobs": [J("deferred", "wl_deferred", 200000, 5000000)]},
     "C09": {"jobs": [J("barrier", "wl_barrier", 300000, 8000000)]},
     "C10": {"jobs": [J("latch", "wl_latch", 300000, 8000000)]},
     "C11": {"jobs": [J("trigger", "wl_trigger", 200000, 5000000)]},
@@ -51,7 +53,8 @@ PROPS = {
                      J("rcu.c13.blob", "wl_rcu", 40000, 1000000, mode="c13", elem=2)]},
     "C14": {"jobs": [J("lr.freeze", "wl_lr", 60000, 1500000, mode="freeze"),
                      J("lr.overlap", "wl_lr", 20000, 500000, mode="overlap"),
-                     J("rcu.freeze", "wl_rcu", 60000, 1500000, mode="freeze", elem=0)]},
+                     J("rcu.freeze", "wl_rcu", 60000, 1500000, mode="freeze", elem=0),
+                     J("cow.freeze", "wl_cow", 60000, 1500000, mode="freeze")]},
 }
 
 
